@@ -210,7 +210,16 @@ func (s *sgen) runCase(id int) bool {
 			} else {
 				tgt = s.g.randObj(0)
 			}
-			hung = s.emit(s.w.stepPatch(col, key, tgt))
+			if s.r.intn(5) == 0 {
+				// two overlapping REST patches of one key
+				var tgt2 interface{} = s.g.randObj(0)
+				if m, ok := tgt.(J); ok && s.r.intn(2) == 0 {
+					tgt2 = s.g.mutateVal(map[string]interface{}(m), 0)
+				}
+				hung = s.w.stepPatchPair(col, key, tgt, tgt2, s.emit)
+			} else {
+				hung = s.emit(s.w.stepPatch(col, key, tgt))
+			}
 		case x < s.p.pCall && len(rs) > 0:
 			r := rs[s.r.intn(len(rs))]
 			m, a := s.g.genCall(r, false)
